@@ -79,11 +79,12 @@ def _tokens_exit_failures():
     rows = run_probe('tokens-exit')
     if rows is None:
         return None
-    out = {'exit.one_token': [], 'exit.ledger': [], 'exit.cheat_bytes': []}
+    out = {'exit.one_token': [], 'exit.ledger': [], 'exit.cheat_bytes': [], 'exit.no_debt_where_nobody_reads_it': []}
     for r in rows:
         if not (0 <= r['cheats'] and 0 <= r['my_tokens'] <= 1):   # requires old(self).state.inv()  (the true invariant)
             continue
-        inp = 'top_level=%d my_tokens=%d cheats=%d children=%d' % (r['top_level'], r['my_tokens'], r['cheats'], r['children'])
+        own = bool(r.get('own_cheat_pipe'))
+        inp = 'top_level=%d own_cheat_pipe=%s my_tokens=%d cheats=%d children=%d' % (r['top_level'], str(own).lower(), r['my_tokens'], r['cheats'], r['children'])
         obs = dict(input=inp, observed=dict(ok=r['ok'], my_tokens_after=r['my_tokens_after'], cheats_after=r['cheats_after'],
                                             token_bytes_written=r['token_bytes'], cheat_bytes_written=r['cheat_bytes']))
         if not r['ok']:
@@ -96,7 +97,9 @@ def _tokens_exit_failures():
             out['exit.one_token'].append(dict(obs, clause='real tokens at exit + debt bytes written == 1'))
         if real_exit == 1 and r['cheats'] == 0 and r['cheat_bytes'] != 0:
             out['exit.cheat_bytes'].append(dict(obs, clause='no debt byte from a process that leaves with its one real token'))
-        if r['my_tokens_after'] != max(real_exit, 0) or r['my_tokens_after'] > 1:
+        if r['top_level'] == 0 and own and r['cheat_bytes'] != 0:
+            out['exit.no_debt_where_nobody_reads_it'].append(dict(obs, clause='the outermost redo under an inherited jobserver writes no debt byte (nobody reads its cheat pipe)'))
+        if not (r['top_level'] == 0 and own) and (r['my_tokens_after'] != max(real_exit, 0) or r['my_tokens_after'] > 1):
             out['exit.ledger'].append(dict(obs, clause='my_tokens_after == max(real tokens at exit, 0) <= 1'))
     return out
 
@@ -433,6 +436,40 @@ def _cheatpipe_failures():
     return fails, n
 
 
+def _conserve_failures():
+    """Bounded: token conservation under an inherited (make-style) jobserver, on the real binaries: a fifo with one token is
+    handed down through MAKEFLAGS, a build is run, the tokens in the fifo are counted afterwards.  Two histories in which a
+    redo exits while holding a borrowed token or no token at all (scenarios/f29.sh; the demonstration of seeded C08-04,
+    which also checks redo's own 'expected N tokens' self-test).  -> (failures, n) or None"""
+    bindir = build_redo_bin()
+    if not bindir:
+        return None
+    exe = os.path.join(BUILD_DIR, 'redo-target', 'debug', 'redo')
+    env = {k: v for k, v in os.environ.items() if not k.startswith('REDO') and k != 'MAKEFLAGS'}
+    env['REDO_BIN'] = exe
+    env['TMPDIR'] = '/var/tmp'
+    fails, n = [], 0
+    for script, what in ((os.path.join(ROOT, 'scenarios', 'f29.sh'), 'redo a b d under a fifo jobserver with one token; a.do runs `redo c` after it had to borrow a token; the reap of a consumes the debt'),
+                         (os.path.join(ROOT, 'seeded', 'C08-04', 'demo', 'demo.sh'), 'redo -j2 a b d (own jobserver) and the same under a fifo jobserver; a exits holding a borrowed token')):
+        if not os.path.exists(script):
+            continue
+        n += 1
+        bad = 0
+        for attempt in (1, 2):
+            try:
+                r = subprocess.run(['sh', script], cwd=os.path.dirname(script), env=env, capture_output=True, text=True, timeout=200)
+                rc, tail = r.returncode, (r.stdout + r.stderr).strip()[-500:]
+            except subprocess.TimeoutExpired:
+                rc, tail = 124, 'timed out after 200 s'
+            if rc in (0, 2):   # 2: the history could not be driven (inconclusive)
+                break
+            bad += 1
+        if bad == 2:
+            fails.append(dict(input='%s: %s' % (os.path.relpath(script, ROOT), what), observed='exit %d twice: ...%s' % (rc, tail),
+                              clause='the jobserver holds afterwards exactly the tokens it held before (exit.one_token / exit.no_debt_where_nobody_reads_it)'))
+    return fails, n
+
+
 def _contend_failures():
     """Bounded: two builders and one target, on the real binaries.  History 1: `redo -j2 a b` (a takes 1.2 s, b 2.4 s);
     while both run a second process runs `redo a`; after a has finished a third runs `redo b`.  No two executions of one
@@ -672,6 +709,13 @@ def conformance(prop, unit_names, pins_changed, labels_props):
             out.append(dict(oid='tokens/setup_cheat_fds/setup.own_jobserver_owns_its_debts', msg='clause fails on the real binaries for a concrete history (bounded probe cheatpipe, %d histories)' % r[1],
                             where=REPO + '/src/jobserver.rs:setup', site=None, text=hits[0]['clause'], rendered=json.dumps(hits[:6], indent=1),
                             inputs=[h['input'] for h in hits], fn='setup_cheat_fds', label='setup.own_jobserver_owns_its_debts', props=['C08']))
+    if 'tokens' in unit_names and prop == 'C08':
+        r = _conserve_failures()
+        if r and r[0]:
+            hits = r[0]
+            out.append(dict(oid='tokens/do_force_return_tokens/exit.one_token', msg='clause fails on the real binaries for a concrete history (bounded probe conserve, %d histories)' % r[1],
+                            where=REPO + '/src/jobserver.rs:do_force_return_tokens', site=None, text=hits[0]['clause'], rendered=json.dumps(hits[:6], indent=1),
+                            inputs=[h['input'] for h in hits], fn='do_force_return_tokens', label='exit.one_token', props=['C08']))
     for unit, probe_, fn_, where in PROBED:
         if unit in unit_names:
             f = _path_failures(probe_) or {}
@@ -735,6 +779,7 @@ def bounded(prop, unit_names, labels_props):
                           lambda h: (h.get('prop') == 'C06') == (prop in ('C06', 'C07'))))
         if prop == 'C08':
             extra.append(('cheatpipe', _cheatpipe_failures, 'tokens/setup_cheat_fds/setup.own_jobserver_owns_its_debts', lambda h: True))
+            extra.append(('conserve', _conserve_failures, 'tokens/do_force_return_tokens/exit.one_token', lambda h: True))
         if prop in ('C03', 'C01'):
             extra.append(('stamp-pipe', _stamp_pipe_failures, 'gluebins/stamp_digest/stamp.digest_covers_the_whole_input', lambda h: True))
         extra.append(('corpus', lambda: _corpus_failures(prop), None, lambda h: True))
